@@ -77,6 +77,7 @@ type Engine struct {
 	trustedClauses []string // clauses of partly verified functions that are assumed, not proved
 	noPanicNoted  bool
 	packCalls     int
+	loggedTerm    string // ghost state: an error-level line has been logged so far (on this path)
 	calleeLogFlag string // while a callee's postconditions are evaluated: its "logged an error" flag
 	lastSort      *sortRec
 	lastSortP     string // permutation array of the most recent sort call (ghost: vcSortPerm)
@@ -628,6 +629,7 @@ func (e *Engine) execBlock(fr *frame, b *ssa.BasicBlock, entryReach string, entr
 				for k, v := range ls.heap {
 					heap[k] = v
 				}
+				e.loggedTerm = ls.logged
 			}
 		}
 	}
